@@ -26,6 +26,10 @@ pub struct StarkProverKnobs {
     /// verifier's identity, opens them through FRI and omits the quotient cap from the proof.
     /// Only for tables without cross-table lookups.
     pub forge_quotient_after_zeta: bool,
+    /// A prover that commits to all-zero quotient polynomials and leaves their openings out of
+    /// the opening set (which the transcript and the FRI argument then never see). Combine with
+    /// `skip_constraint_check` and `lenient_truncation` for traces that violate the constraints.
+    pub zero_quotient_without_openings: bool,
 }
 
 static KNOBS: RwLock<Option<StarkProverKnobs>> = RwLock::new(None);
